@@ -78,12 +78,76 @@ impl Prop for C03Prop {
         let q = tier == Tier::Quick;
         let mut v = wf::wf_streams(tier, 2);
         v.push(Stream::random("mlprog", if q { 500 } else { 8000 }, 700));
+        v.push(Stream::random("lits", if q { 1500 } else { 20000 }, 300));
+        v.push(Stream::random("mlperturb", if q { 600 } else { 8000 }, 700));
         v.push(Stream::random("seeds", if q { 800 } else { 8000 }, 32));
         v
     }
     fn generate(&self, stream: &str, t: &mut Tape) -> Option<Case> {
         let mut c = match stream {
             "seeds" => c02::seed_case(t)?,
+            "lits" => crate::props::c12::C12.generate("lits", t)?,
+            "mlperturb" => {
+                // a canonical program (the formatter's own output) in which one multi-line
+                // string that is not the last one gets a different indentation: only that
+                // literal has to be rewritten, the later ones are already in place
+                let cfg = Cfg::gen_unsaturated(t);
+                let mut c = crate::props::c12::C12.generate(if t.chance(1, 2) { "lits" } else { "mlprog" }, t)?;
+                c.cfg = cfg.clone();
+                let canon = format_with(&cfg, &c.input);
+                let toks = refscan::scan(&canon);
+                let mls: Vec<usize> = toks.iter().enumerate().filter(|(_, x)| x.kind == Kind::TextMulti).map(|(i, _)| i).collect();
+                if mls.len() < 2 {
+                    return None;
+                }
+                let which = mls[t.below(mls.len() as u32 - 1) as usize];
+                let tk = toks[which];
+                let lit = tk.text(&canon);
+                let p = crate::props::c12::parse_literal(lit)?;
+                if crate::props::c12::classify(&p) != crate::props::c12::Class::Valid {
+                    return None;
+                }
+                // new indentation: shorter or longer by a few columns
+                let old = p.close_indent.clone();
+                let new_indent = match t.below(3) {
+                    0 => String::new(),
+                    1 => format!("{old}   "),
+                    _ => old.chars().skip(2).collect(),
+                };
+                let q = "'".repeat(p.quotes);
+                let mut relit = q.clone();
+                relit.push('\n');
+                for (l, _) in &p.lines {
+                    match l.strip_prefix(old.as_str()) {
+                        Some(r) if !r.is_empty() || l.len() == old.len() => {
+                            if !r.is_empty() {
+                                relit.push_str(&new_indent);
+                                relit.push_str(r);
+                            }
+                        }
+                        _ => {}
+                    }
+                    relit.push('\n');
+                }
+                relit.push_str(&new_indent);
+                relit.push_str(&q);
+                let input = format!("{}{}{}", &canon[..tk.start], relit, &canon[tk.end..]);
+                let a = refscan::scan(&input);
+                let b = refscan::scan_impl(&input);
+                if a.len() != b.len() || a.len() != toks.len() {
+                    return None;
+                }
+                c.input = input.clone();
+                c.ann = Some(Ann {
+                    lexemes: a[..a.len() - 1].iter().map(|x| x.text(&input).to_string()).collect(),
+                    kinds: a[..a.len() - 1].iter().map(|x| x.kind as u8).collect(),
+                    marks: vec![],
+                    tags: vec![],
+                });
+                c.gen = "mlperturb".into();
+                c.tags.push("mlperturb".into());
+                c
+            }
             "mlprog" => {
                 let cfg = Cfg::gen_unsaturated(t);
                 let opts = crate::gen::prog::Opts { mlstr: true, ..Default::default() };
